@@ -12,6 +12,7 @@ typedef struct {
     int kind;            /* 0 batch, 1 new row group */
     int col; int nrows; int has_defs; uint8_t* defs;   /* defs[i] in {0,1} */
     int nvals; uint8_t** vals; int* vlen;
+    int has_reps; uint8_t* reps;                        /* reps[i] in {0,1}; has_reps = 0: NULL rep_levels pointer */
 } fstep;
 typedef struct { fcol cols[MAXC]; int ncols; int codec; long page; fstep steps[MAXSTEP]; int nsteps; } fcase;
 
@@ -22,7 +23,7 @@ __attribute__((unused)) static int vsize(const fcol* c) {
 __attribute__((unused)) static void free_case(fcase* fc) {
     for (int i = 0; i < fc->nsteps; i++) {
         fstep* s = &fc->steps[i];
-        free(s->defs);
+        free(s->defs); free(s->reps);
         for (int j = 0; j < s->nvals; j++) free(s->vals[j]);
         free(s->vals); free(s->vlen);
     }
@@ -43,6 +44,13 @@ __attribute__((unused)) static void print_case(hctx* h, const fcase* fc) {
         fputc('.', h->out);
         if (s->nvals == 0) fputc('-', h->out);
         for (int j = 0; j < s->nvals; j++) { if (j) fputc(':', h->out); h_hex(h->out, s->vals[j], (size_t)s->vlen[j]); }
+        /* optional fourth field: the repetition levels handed to write_batch (absent = NULL pointer, as in every
+         * line written before REPEATED columns were generated) */
+        if (s->has_reps) {
+            fputs(".R", h->out);
+            if (s->nrows == 0) fputc('E', h->out);
+            else for (int r = 0; r < s->nrows; r++) fputc('0' + s->reps[r], h->out);
+        }
     }
 }
 
@@ -58,6 +66,14 @@ __attribute__((unused)) static void* batch_values(const fcol* c, const fstep* s)
     uint8_t* p = h_alloc((size_t)n * (size_t)vs);
     for (int j = 0; j < n; j++) memcpy(p + (size_t)j * (size_t)vs, s->vals[j], (size_t)vs);
     return p;
+}
+
+/* the rep_levels argument of a batch: NULL, or an exact-size int16 array */
+__attribute__((unused)) static int16_t* batch_reps(const fstep* s) {
+    if (!s->has_reps) return NULL;
+    int16_t* r = (int16_t*)h_alloc((size_t)(s->nrows ? s->nrows : 1) * 2);
+    for (int i = 0; i < s->nrows; i++) r[i] = s->reps[i];
+    return r;
 }
 
 __attribute__((unused)) static int write_file(const fcase* fc, const char* path, int* st, int* nst) {
@@ -78,8 +94,9 @@ __attribute__((unused)) static int write_file(const fcase* fc, const char* path,
         void* v = batch_values(&fc->cols[s->col], s);
         int16_t* d = NULL;
         if (s->has_defs) { d = (int16_t*)h_alloc((size_t)(s->nrows ? s->nrows : 1) * 2); for (int r = 0; r < s->nrows; r++) d[r] = s->defs[r]; }
-        st[(*nst)++] = (int)carquet_writer_write_batch(w, s->col, v, s->nrows, d, NULL);
-        free(v); free(d);
+        int16_t* rl = batch_reps(s);
+        st[(*nst)++] = (int)carquet_writer_write_batch(w, s->col, v, s->nrows, d, rl);
+        free(v); free(d); free(rl);
     }
     st[(*nst)++] = (int)carquet_writer_close(w);
     carquet_schema_free(sc);
@@ -113,7 +130,7 @@ __attribute__((unused)) static void gen_case(hctx* h, fcase* fc, int small) {
     fc->ncols = 1 + (int)h_below(h, small ? 2 : 4);
     for (int i = 0; i < fc->ncols; i++) {
         snprintf(fc->cols[i].name, sizeof fc->cols[i].name, "c%d", i);
-        fc->cols[i].rep = (int)h_below(h, 2);
+        fc->cols[i].rep = (int)h_below(h, 3);
         fc->cols[i].ptype = types[h_below(h, 7)];
         if (getenv("VERIF_FILE_NO_BYTE_ARRAY") && fc->cols[i].ptype == 6) fc->cols[i].ptype = 2;  /* development aid only */
         fc->cols[i].tlen = fc->cols[i].ptype == 7 ? 1 + (int)h_below(h, 9) : 0;
@@ -129,7 +146,7 @@ __attribute__((unused)) static void gen_case(hctx* h, fcase* fc, int small) {
         fc->ncols = 13 + (int)h_below(h, 4);
         for (int i = 0; i < fc->ncols; i++) {
             snprintf(fc->cols[i].name, sizeof fc->cols[i].name, "c%d", i);
-            fc->cols[i].rep = (int)h_below(h, 2);
+            fc->cols[i].rep = (int)h_below(h, 3);
             fc->cols[i].ptype = types[h_below(h, 7)];
             if (getenv("VERIF_FILE_NO_BYTE_ARRAY") && fc->cols[i].ptype == 6) fc->cols[i].ptype = 2;
             fc->cols[i].tlen = fc->cols[i].ptype == 7 ? 1 + (int)h_below(h, 9) : 0;
@@ -142,33 +159,64 @@ __attribute__((unused)) static void gen_case(hctx* h, fcase* fc, int small) {
         int rows = small ? (int)h_below(h, 14) : (int)h_below(h, h_chance(h, 1, 4) ? 200 : 40);
         if (wide || longf) rows = 1 + (int)h_below(h, 5);
         if (h_chance(h, 1, 15)) rows = 0;
-        /* per column: a null pattern over `rows`, split into batches; batches of different columns interleaved column by column */
+        /* per column: a null pattern over `rows`, split into batches; batches of different columns interleaved column by column.
+         * A REPEATED column holds one list per row: an empty list is one entry (definition level 0, repetition level 0), a
+         * list of k >= 1 elements is k entries (definition level 1; repetition level 0 for the first, 1 for the others). */
         for (int c = 0; c < fc->ncols; c++) {
             int pat = (int)h_below(h, 6);
-            int left = rows;
+            int repeated = fc->cols[c].rep == 2;
+            /* entries of the column in this row group */
+            int ecap = rows * 13 + 1, ne = 0;
+            uint8_t* ed = h_alloc((size_t)ecap); uint8_t* er = h_alloc((size_t)ecap);
+            int lpat = (int)h_below(h, 6);
+            for (int r = 0; r < rows; r++) {
+                if (!repeated) {
+                    int d = 1;
+                    switch (pat) { case 0: d = 1; break; case 1: d = 0; break; case 2: d = (int)h_below(h, 2); break;
+                                   case 3: d = (r / 9) % 2; break; case 4: d = h_chance(h, 1, 10) ? 0 : 1; break; default: d = (r % 3) != 0; break; }
+                    ed[ne] = (uint8_t)d; er[ne] = 0; ne++;
+                } else {
+                    int k;
+                    switch (lpat) { case 0: k = 1; break; case 1: k = 0; break; case 2: k = (int)h_below(h, 2); break;      /* 0..2: every entry is a row */
+                                    case 3: k = (int)h_below(h, 4); break; case 4: k = h_chance(h, 1, 6) ? (int)h_below(h, 13) : 1; break;
+                                    default: k = r % 3; break; }
+                    if (k == 0) { ed[ne] = 0; er[ne] = 0; ne++; }
+                    for (int q = 0; q < k; q++) { ed[ne] = 1; er[ne] = (uint8_t)(q != 0); ne++; }
+                }
+            }
+            int left = ne, pos = 0;
             int nb = (wide || longf) ? 1 : 1 + (int)h_below(h, 4);
             for (int b = 0; b < nb && ns < MAXSTEP - 4; b++) {
                 int take = (b == nb - 1) ? left : (int)h_below(h, (uint64_t)left + 1);
-                if (take == 0 && !(rows == 0 && b == nb - 1) && !h_chance(h, 1, 6)) continue;
+                /* a batch of a REPEATED column mostly ends where a row ends (3 of 4), sometimes in the middle of a list */
+                if (repeated && b != nb - 1 && !h_chance(h, 1, 4)) while (take < left && er[pos + take] != 0) take++;
+                if (take == 0 && !(ne == 0 && b == nb - 1) && !h_chance(h, 1, 6)) continue;
                 fstep* s = &fc->steps[ns++];
                 s->kind = 0; s->col = c; s->nrows = take;
-                s->has_defs = fc->cols[c].rep == 1 ? !h_chance(h, 1, 8) : h_chance(h, 1, 10);
-                s->defs = h_alloc((size_t)take);
-                int nn = 0;
-                for (int r = 0; r < take; r++) {
-                    int d = 1;
-                    if (fc->cols[c].rep == 1 && s->has_defs) {
-                        switch (pat) { case 0: d = 1; break; case 1: d = 0; break; case 2: d = (int)h_below(h, 2); break;
-                                       case 3: d = ((rows - left + r) / 9) % 2; break; case 4: d = h_chance(h, 1, 10) ? 0 : 1; break; default: d = ((rows - left + r) % 3) != 0; break; }
-                    }
-                    s->defs[r] = (uint8_t)d; nn += d;
+                s->defs = h_alloc((size_t)take); s->reps = h_alloc((size_t)take);
+                int nn = 0, all1 = 1, all0 = 1;
+                for (int r = 0; r < take; r++) { s->defs[r] = ed[pos + r]; s->reps[r] = er[pos + r]; if (!ed[pos + r]) all1 = 0; if (er[pos + r]) all0 = 0; }
+                if (fc->cols[c].rep == 0) {                     /* REQUIRED: levels are ignored by the writer; mostly NULL */
+                    s->has_defs = h_chance(h, 1, 10);
+                    for (int r = 0; r < take; r++) s->defs[r] = 1;
+                } else if (fc->cols[c].rep == 1) {              /* OPTIONAL: NULL def_levels = all present */
+                    s->has_defs = !h_chance(h, 1, 8);
+                    if (!s->has_defs) for (int r = 0; r < take; r++) s->defs[r] = 1;
+                } else {                                        /* REPEATED: NULL def_levels only for a batch without empty lists */
+                    s->has_defs = all1 ? (int)h_below(h, 2) : 1;
                 }
+                for (int r = 0; r < take; r++) nn += s->defs[r];
+                /* rep_levels: a REPEATED column needs them unless every entry of the batch starts a row; for the other
+                 * columns the pointer is ignored by the writer (max_rep_level 0) — now and then hand it arbitrary levels */
+                if (repeated) s->has_reps = all0 ? (int)h_below(h, 2) : 1;
+                else { s->has_reps = h_chance(h, 1, 12); if (s->has_reps) for (int r = 0; r < take; r++) s->reps[r] = (uint8_t)h_below(h, 2); }
                 s->nvals = nn;
                 s->vals = (uint8_t**)h_alloc((size_t)(nn ? nn : 1) * sizeof(uint8_t*));
                 s->vlen = (int*)h_alloc((size_t)(nn ? nn : 1) * sizeof(int));
                 for (int j = 0; j < nn; j++) gen_value(h, &fc->cols[c], &s->vals[j], &s->vlen[j]);
-                left -= take;
+                left -= take; pos += take;
             }
+            free(ed); free(er);
         }
         if (g + 1 < nrg || h_chance(h, 1, 5)) { if (ns < MAXSTEP - 1) { fc->steps[ns].kind = 1; ns++; } }
     }
@@ -203,6 +251,14 @@ __attribute__((unused)) static int parse_case(const h_line* l, fcase* fc) {
         else if (*p == 'E') { p++; s->has_defs = 1; s->nrows = 0; s->defs = h_alloc(0); }
         else { const char* q = p; while (*q == '0' || *q == '1') q++; s->has_defs = 1; s->nrows = (int)(q - p); s->defs = h_alloc((size_t)s->nrows); for (int r = 0; r < s->nrows; r++) s->defs[r] = (uint8_t)(p[r] - '0'); p = q; }
         if (*p == '.') p++;
+        /* optional ".R<levels>" after the values: the rep_levels array (absent: NULL pointer) */
+        char* vcopy = strdup(p); char* rp = strstr(vcopy, ".R");
+        s->reps = h_alloc((size_t)s->nrows); memset(s->reps, 0, (size_t)s->nrows);
+        if (rp) {
+            *rp = 0; rp += 2; s->has_reps = 1;
+            if (*rp != 'E') { if ((int)strlen(rp) != s->nrows) { free(vcopy); return 1; } for (int r = 0; r < s->nrows; r++) s->reps[r] = (uint8_t)(rp[r] - '0'); }
+        }
+        p = vcopy;
         int nv = 0; if (strcmp(p, "-") != 0) { nv = 1; for (const char* q = p; *q; q++) if (*q == ':') nv++; }
         s->nvals = nv; s->vals = (uint8_t**)h_alloc((size_t)(nv ? nv : 1) * sizeof(uint8_t*)); s->vlen = (int*)h_alloc((size_t)(nv ? nv : 1) * sizeof(int));
         for (int j = 0; j < nv; j++) {
@@ -210,6 +266,7 @@ __attribute__((unused)) static int parse_case(const h_line* l, fcase* fc) {
             char* tmp = strndup(p, (size_t)(q - p)); size_t n; s->vals[j] = h_unhex(tmp, &n); s->vlen[j] = (int)n; free(tmp);
             p = *q ? q + 1 : q;
         }
+        free(vcopy);
     }
     return 0;
 }
